@@ -316,52 +316,95 @@ func materialise(objs []*Obj) {
 
 // parsed view of a manifest body, computed by the model's own JSON parse (independent of olareg/types)
 type manView struct {
-	ok       bool
-	shape    string // "image", "index", "" (neither)
+	ok       bool     // a JSON object
+	shape    string   // "image", "index", "both", "" (neither): taken narrowly
 	mt       string
 	at       string
 	configMT string
-	refs     []string // config + layers (image) or children (index)
-	children []string
+	refs     []string // what the manifest names under the media type it was accepted with
+	imgRefs  []string // config + layers
+	children []string // manifests
 	subject  string
 	annot    map[string]string
 	hasCfg   bool
+	fieldErr map[string]bool // fields whose JSON type is wrong
 }
 
 func parseManifest(b []byte) manView {
-	var raw struct {
-		MediaType    string            `json:"mediaType"`
-		ArtifactType string            `json:"artifactType"`
-		Config       *descJSON         `json:"config"`
-		Layers       []descJSON        `json:"layers"`
-		Manifests    []descJSON        `json:"manifests"`
-		Subject      *descJSON         `json:"subject"`
-		Annotations  map[string]string `json:"annotations"`
-	}
-	v := manView{}
-	if err := json.Unmarshal(b, &raw); err != nil {
+	v := manView{fieldErr: map[string]bool{}}
+	var top map[string]json.RawMessage
+	if err := json.Unmarshal(b, &top); err != nil || top == nil {
 		return v
 	}
 	v.ok = true
-	v.mt, v.at, v.annot = raw.MediaType, raw.ArtifactType, raw.Annotations
-	if raw.Subject != nil {
-		v.subject = raw.Subject.Digest
+	get := func(k string, dst any) bool {
+		raw, ok := top[k]
+		if !ok || string(raw) == "null" {
+			return false
+		}
+		if err := json.Unmarshal(raw, dst); err != nil {
+			v.fieldErr[k] = true
+			return false
+		}
+		return true
 	}
+	var sv int
+	get("schemaVersion", &sv)
+	get("mediaType", &v.mt)
+	get("artifactType", &v.at)
+	var cfg descJSON
+	hasCfg := get("config", &cfg)
+	var layers, mans []descJSON
+	get("layers", &layers)
+	hasMans := get("manifests", &mans)
+	var subj descJSON
+	if get("subject", &subj) {
+		v.subject = subj.Digest
+	}
+	get("annotations", &v.annot)
+	isImage := (hasCfg && (cfg.Digest != "" || cfg.MediaType != "")) || len(layers) > 0
+	isIndex := hasMans
 	switch {
-	case raw.Manifests != nil:
+	case isImage && isIndex:
+		v.shape = "both"
+	case isIndex:
 		v.shape = "index"
-		for _, c := range raw.Manifests {
-			v.refs = append(v.refs, c.Digest)
-			v.children = append(v.children, c.Digest)
-		}
-	case raw.Config != nil:
+	case isImage:
 		v.shape = "image"
-		v.hasCfg = true
-		v.configMT = raw.Config.MediaType
-		v.refs = append(v.refs, raw.Config.Digest)
-		for _, l := range raw.Layers {
-			v.refs = append(v.refs, l.Digest)
+	}
+	v.hasCfg = hasCfg
+	v.configMT = cfg.MediaType
+	if hasCfg || len(layers) > 0 {
+		v.imgRefs = append(v.imgRefs, cfg.Digest)
+		for _, l := range layers {
+			v.imgRefs = append(v.imgRefs, l.Digest)
 		}
+	}
+	for _, c := range mans {
+		v.children = append(v.children, c.Digest)
+	}
+	// default: refs by shape (used for content the model only knows as bytes)
+	switch v.shape {
+	case "index":
+		v.refs = v.children
+	case "image":
+		v.refs = v.imgRefs
+	case "both":
+		v.refs = append(append([]string{}, v.imgRefs...), v.children...)
+	}
+	return v
+}
+
+// under fixes refs and children to what a manifest accepted with media type mt names.
+func (v manView) under(mt string) manView {
+	if isIndexMT(mt) {
+		v.refs = v.children
+	} else {
+		v.refs = v.imgRefs
+		if len(v.refs) == 0 {
+			v.refs = []string{""}
+		}
+		v.children = nil
 	}
 	return v
 }
